@@ -44,5 +44,24 @@ theorem body_standardRenderer_start : Tea.Gen.fact_body_standardRenderer_start =
 theorem order_Program_ReleaseTerminal : Tea.Gen.fact_order_Program_ReleaseTerminal = Tea.Doc.fact_order_Program_ReleaseTerminal := rfl
 theorem order_Program_RestoreTerminal : Tea.Gen.fact_order_Program_RestoreTerminal = Tea.Doc.fact_order_Program_RestoreTerminal := rfl
 theorem order_Program_exec : Tea.Gen.fact_order_Program_exec = Tea.Doc.fact_order_Program_exec := rfl
+theorem body_NewProgram : Tea.Gen.fact_body_NewProgram = Tea.Doc.fact_body_NewProgram := rfl
+theorem body_WithContext : Tea.Gen.fact_body_WithContext = Tea.Doc.fact_body_WithContext := rfl
+theorem body_WithOutput : Tea.Gen.fact_body_WithOutput = Tea.Doc.fact_body_WithOutput := rfl
+theorem body_WithInput : Tea.Gen.fact_body_WithInput = Tea.Doc.fact_body_WithInput := rfl
+theorem body_WithInputTTY : Tea.Gen.fact_body_WithInputTTY = Tea.Doc.fact_body_WithInputTTY := rfl
+theorem body_WithoutCatchPanics : Tea.Gen.fact_body_WithoutCatchPanics = Tea.Doc.fact_body_WithoutCatchPanics := rfl
+theorem body_WithoutRenderer : Tea.Gen.fact_body_WithoutRenderer = Tea.Doc.fact_body_WithoutRenderer := rfl
+theorem body_WithEnvironment : Tea.Gen.fact_body_WithEnvironment = Tea.Doc.fact_body_WithEnvironment := rfl
+theorem bodies_nilRenderer : Tea.Gen.fact_bodies_nilRenderer = Tea.Doc.fact_bodies_nilRenderer := rfl
+theorem body_newInputReader : Tea.Gen.fact_body_newInputReader = Tea.Doc.fact_body_newInputReader := rfl
+theorem body_readInputs : Tea.Gen.fact_body_readInputs = Tea.Doc.fact_body_readInputs := rfl
+theorem body_openInputTTY : Tea.Gen.fact_body_openInputTTY = Tea.Doc.fact_body_openInputTTY := rfl
+theorem body_Program_handlePanic : Tea.Gen.fact_body_Program_handlePanic = Tea.Doc.fact_body_Program_handlePanic := rfl
+theorem body_channelHandlers_add : Tea.Gen.fact_body_channelHandlers_add = Tea.Doc.fact_body_channelHandlers_add := rfl
+theorem body_Quit : Tea.Gen.fact_body_Quit = Tea.Doc.fact_body_Quit := rfl
+theorem body_Interrupt : Tea.Gen.fact_body_Interrupt = Tea.Doc.fact_body_Interrupt := rfl
+theorem body_WithoutSignalHandler : Tea.Gen.fact_body_WithoutSignalHandler = Tea.Doc.fact_body_WithoutSignalHandler := rfl
+theorem body_Program_Start : Tea.Gen.fact_body_Program_Start = Tea.Doc.fact_body_Program_Start := rfl
+theorem body_Program_StartReturningModel : Tea.Gen.fact_body_Program_StartReturningModel = Tea.Doc.fact_body_Program_StartReturningModel := rfl
 
 end Tea.Props.Bridge.C04
